@@ -18,6 +18,7 @@ import (
 type C02Op struct {
 	K      string `json:"k"` // pub1 pub2 rel duprel filler ping
 	ID     uint16 `json:"id,omitempty"`
+	Sys    bool   `json:"sys,omitempty"` // pub1/pub2: the topic starts with '$' (nobody can receive it; it must be acknowledged like any other)
 	Dup    bool   `json:"dup,omitempty"` // pub2: the first copy of the exchange already carries DUP=1 (a retransmission whose original was lost)
 	Size   int    `json:"size,omitempty"`
 	Volume int    `json:"volume,omitempty"` // filler bytes
@@ -33,6 +34,7 @@ type exch struct {
 	topic    string
 	payload  []byte
 	released bool
+	sys      bool
 }
 
 type c02result struct {
@@ -80,9 +82,15 @@ func runC02(c C02Case) (res c02result) {
 			msgno++
 			pl := payload(msgno, op.Size)
 			topic := fmt.Sprintf("t/q1/%d", msgno)
+			if op.Sys {
+				topic = fmt.Sprintf("$SYS/q1/%d", msgno)
+				cls["publish-on-$-topic"] = true
+			}
 			P.Send(&codec.Packet{Type: codec.PUBLISH, QoS: 1, PacketID: op.ID, Topic: []byte(topic), Payload: pl})
 			expAcks = append(expAcks, &codec.Packet{Type: codec.PUBACK, PacketID: op.ID})
-			expFwd = append(expFwd, want{topic, pl, 1})
+			if !op.Sys {
+				expFwd = append(expFwd, want{topic, pl, 1})
+			}
 		case "pub2":
 			var x *exch
 			for _, o := range open {
@@ -92,7 +100,11 @@ func runC02(c C02Case) (res c02result) {
 			}
 			if x == nil {
 				msgno++
-				x = &exch{id: op.ID, msgno: msgno, topic: fmt.Sprintf("t/q2/%d", msgno), payload: payload(msgno, op.Size)}
+				x = &exch{id: op.ID, msgno: msgno, topic: fmt.Sprintf("t/q2/%d", msgno), payload: payload(msgno, op.Size), sys: op.Sys}
+				if op.Sys {
+					x.topic = fmt.Sprintf("$SYS/q2/%d", msgno)
+					cls["publish-on-$-topic"] = true
+				}
 				open = append(open, x)
 				delete(completed, op.ID)
 				if op.Dup {
@@ -114,7 +126,9 @@ func runC02(c C02Case) (res c02result) {
 			completed[x.id] = true
 			P.Send(&codec.Packet{Type: codec.PUBREL, PacketID: x.id})
 			expAcks = append(expAcks, &codec.Packet{Type: codec.PUBCOMP, PacketID: x.id})
-			expFwd = append(expFwd, want{x.topic, x.payload, 2})
+			if !x.sys {
+				expFwd = append(expFwd, want{x.topic, x.payload, 2})
+			}
 			where = fmt.Sprintf("op %d (rel id %d)", i, x.id)
 		case "duprel":
 			// duplicate PUBREL of a completed exchange (or of an id never used)
@@ -222,9 +236,9 @@ func genC02(t *rapid.T) C02Case {
 		size := rapid.SampledFrom([]int{0, 1, 10, 100, 3000, 8100}).Draw(t, "size")
 		switch k := rapid.IntRange(0, 11).Draw(t, "k"); {
 		case k < 2:
-			c.Ops = append(c.Ops, C02Op{K: "pub1", ID: id, Size: size})
+			c.Ops = append(c.Ops, C02Op{K: "pub1", ID: id, Size: size, Sys: rapid.IntRange(0, 7).Draw(t, "sys") == 0})
 		case k < 6:
-			c.Ops = append(c.Ops, C02Op{K: "pub2", ID: id, Size: size, Dup: rapid.IntRange(0, 4).Draw(t, "firstdup") == 0})
+			c.Ops = append(c.Ops, C02Op{K: "pub2", ID: id, Size: size, Dup: rapid.IntRange(0, 4).Draw(t, "firstdup") == 0, Sys: rapid.IntRange(0, 9).Draw(t, "sys") == 0})
 		case k < 9:
 			c.Ops = append(c.Ops, C02Op{K: "rel"})
 		case k == 9:
